@@ -238,6 +238,12 @@ def slant_depth_against_an_independent_chord_integral_sampled():
         p = np.array([real("x", -5000, 5000), real("y", -5000, 5000), real("z", -3000, 0)])
         th, ph = real("zenith", 0, pi), real("azimuth", -pi, pi)
         u = np.array([np.sin(th) * np.cos(ph), np.sin(th) * np.sin(ph), np.cos(th)])
+        # edge geometries drawn exactly (a random zenith never hits them): a point on the vertical axis with an exactly
+        # horizontal direction (tangential chord: direction perpendicular to the radius vector), exactly vertical ones
+        edge = integer("edge_geometry", 0, 5)
+        if edge >= 3:
+            p = np.array([0.0, 0.0, p[2]])
+            u = [np.array([np.cos(ph), np.sin(ph), 0.0]), np.array([0.0, 0.0, 1.0]), np.array([0.0, 0.0, -1.0])][edge - 3]
         scale = 10 ** real("log10_direction_length", -2, 2)
         step = 20
         got = m.slant_depth(p, scale * u, step=step)
